@@ -78,7 +78,21 @@ Theorem C14_op_mul_secret_int : forall o f y, returns (pyop c OMul (PFxp o f) (P
 Proof. exact (op_fx_mul_lc ins ig c s sg I). Qed.
 Theorem C14_op_lt_secret_int : forall o f y, returns (pyop c OLt (PFxp o f) (PLC y)) s sg (isb (fun r => r = b2z (v f <? v y * Api.R c))).
 Proof. exact (op_fx_lt_lc ins ig c s sg I Chk). Qed.
+(* // and % : floor division and modulo of the represented rationals A = a/2^r, B = b/2^r.  On representations: A // B = floor(a/b) (a whole
+   number, stored rescaled as floor(a/b) * 2^r) and A % B = (a mod b) / 2^r (stored as a mod b); an int k stands for k * 2^r *)
+Theorem C14_op_floordiv : forall o o' f g, returns (pyop c OFloorDiv (PFxp o f) (PFxp o' g)) s sg (isfx (fun r => r = (v f / v g) * Api.R c)).
+Proof. exact (op_fx_floordiv ins ig c s sg I). Qed.
+Theorem C14_op_mod : forall o o' f g, returns (pyop c OMod (PFxp o f) (PFxp o' g)) s sg (isfx (fun r => r = v f mod v g)).
+Proof. exact (op_fx_mod ins ig c s sg I). Qed.
+Theorem C14_op_floordiv_int : forall o f k, returns (pyop c OFloorDiv (PFxp o f) (PInt k)) s sg (isfx (fun r => r = (v f / (k * Api.R c)) * Api.R c)).
+Proof. exact (op_fx_floordiv_int ins ig c s sg I). Qed.
+Theorem C14_op_mod_int : forall o f k, returns (pyop c OMod (PFxp o f) (PInt k)) s sg (isfx (fun r => r = v f mod (k * Api.R c))).
+Proof. exact (op_fx_mod_int ins ig c s sg I). Qed.
 End C14_op.
+Print Assumptions C14_op_floordiv.
+Print Assumptions C14_op_mod.
+Print Assumptions C14_op_floordiv_int.
+Print Assumptions C14_op_mod_int.
 
 (* non-vacuity: 2.5 * -1.75 and 2.5 / -1.75 at resolution 3 (representations 20 and -14): floor(-280/8) = -35, floor(-35*8/20) = -14 *)
 Example C14_example :
